@@ -39,7 +39,7 @@ pub fn resolve_label(
             
             if opts.debug_iterations
             {
-                println!("label: {} = {:?}",
+                debug_println!("label: {} = {:?}",
                     ast_symbol.name,
                     symbol.value);
             }
